@@ -113,6 +113,10 @@ func YAMLMutants(src string) []Mutant {
 				})
 				emit("key becomes bad path "+lab, func(r *yaml.Node) { get(r, p).Content[ki].Value = "(ex.a" })
 				emit("key becomes unknown prefix "+lab, func(r *yaml.Node) { get(r, p).Content[ki].Value = "nope.x" })
+				emit("key becomes a sequence "+lab, func(r *yaml.Node) {
+					m := get(r, p)
+					m.Content[ki] = &yaml.Node{Kind: yaml.SequenceNode, Tag: "!!seq", Style: yaml.FlowStyle, Content: []*yaml.Node{yamlScalar("!!str", "a"), yamlScalar("!!str", "b")}}
+				})
 				emit("key becomes empty "+lab, func(r *yaml.Node) {
 					k := get(r, p).Content[ki]
 					k.Value, k.Style = "", yaml.DoubleQuotedStyle
